@@ -589,4 +589,44 @@ theorem lock_mutex_of_skeletons (acq rel inner : A → Bool) (sks : Nat → Sk) 
   lock_mutex acq rel inner locals
     (fun j => by obtain ⟨o, ho⟩ := hrun j; exact scan_accepts _ 4 (sks j) 0 (hs j) _ o ho) g hi hl
 
+/-! ### "every normal end has done it" -/
+
+theorem runMon_didMon (p : A → Bool) : ∀ (t : List Ev) (s s' : Nat), runMon (didMon p) s t = some s' → s' = 1 →
+    s = 1 ∨ ∃ a, Ev.act a ∈ t ∧ p a = true := by
+  intro t
+  induction t with
+  | nil => intro s s' h h1; simp [runMon] at h; left; omega
+  | cons e t ih =>
+    intro s s' h h1
+    cases e with
+    | aw n =>
+      simp only [runMon, didMon] at h
+      rcases ih s s' h h1 with h2 | ⟨a, ha, hp⟩
+      · left; exact h2
+      · right; exact ⟨a, List.mem_cons_of_mem _ ha, hp⟩
+    | act a =>
+      simp only [runMon, didMon] at h
+      by_cases hp : p a = true
+      · right; exact ⟨a, List.mem_cons_self, hp⟩
+      · simp only [hp] at h
+        rcases ih s s' h h1 with h2 | ⟨a', ha, hp'⟩
+        · left; exact h2
+        · right; exact ⟨a', List.mem_cons_of_mem _ ha, hp'⟩
+
+theorem everyNormalEndDid_sound {p : A → Bool} {sk : Sk} (h : everyNormalEndDid p sk = true)
+    {t : List Ev} {o : Out} (hr : Run sk t o) (ho : o = .fall ∨ o = .ret) : ∃ a, Ev.act a ∈ t ∧ p a = true := by
+  unfold everyNormalEndDid at h
+  cases hs : scan (didMon p) 4 sk [0] with
+  | none => simp [hs] at h
+  | some r =>
+    simp only [hs, List.all_eq_true, List.mem_append] at h
+    obtain ⟨s', h1, h2⟩ := scan_sound (didMon p) 4 sk [0] r hs 0 (by simp) t o hr
+    have hs1 : s' = 1 := by
+      rcases ho with ho | ho <;> subst ho
+      · simpa using h s' (Or.inl h2)
+      · simpa using h s' (Or.inr h2)
+    rcases runMon_didMon p t 0 s' h1 hs1 with h0 | hex
+    · omega
+    · exact hex
+
 end GeckoModel.Coop
